@@ -372,11 +372,13 @@ struct Run {
     poisoned: bool,
     /// every node ever reported stale: (node, version of the commit that reported it)
     dead: Vec<(NK, u64)>,
+    /// nodes reachable from the previous root
+    prev_reach: BTreeSet<NK>,
 }
 
 impl Run {
     fn new(mode: Mode) -> Run {
-        Run { mode, store: TypedInMemoryTreeStore::new(), version: None, content: Content::new(), poisoned: false, dead: vec![] }
+        Run { mode, store: TypedInMemoryTreeStore::new(), version: None, content: Content::new(), poisoned: false, dead: vec![], prev_reach: BTreeSet::new() }
     }
 
     fn commit(&mut self, toks: &[&str]) -> Answer {
@@ -386,6 +388,7 @@ impl Run {
         if self.poisoned {
             return Answer::ok("poisoned");
         }
+        let before_keys: BTreeSet<NK> = self.store.tree_nodes.borrow().keys().map(nk).collect();
         let rec = Rec { inner: &self.store, stale: RefCell::new(vec![]), stale_nodes: RefCell::new(vec![]), inserted: RefCell::new(vec![]), overwrites: RefCell::new(vec![]) };
         let cur = self.version;
         let r = catch(|| put_at_next_version(&rec, cur, &du));
@@ -433,6 +436,19 @@ impl Run {
                 if let Some(k) = inserted.iter().find(|k| k.0 != new_version) {
                     return Answer::fail(ans, "insert-not-new-version", format!("inserted key {} does not carry the new version {}", show_key(k), new_version));
                 }
+                // the per-commit facts of the C18 kernel theorem (`StepOK`), on the real store
+                if let Some(k) = stale_nodes.iter().find(|k| k.0 >= new_version) {
+                    return Answer::fail(ans, "stale-not-older", format!("stale node {} does not have an older version than {}", show_key(k), new_version));
+                }
+                let after_keys: BTreeSet<NK> = self.store.tree_nodes.borrow().keys().map(nk).collect();
+                let stale_set: BTreeSet<NK> = stale_nodes.iter().cloned().collect();
+                let inserted_set: BTreeSet<NK> = inserted.iter().cloned().collect();
+                if let Some(k) = before_keys.union(&inserted_set).find(|k| !after_keys.contains(*k) && !stale_set.contains(*k)) {
+                    return Answer::fail(ans, "pruned-not-stale", format!("node {} disappeared from the store without being reported stale", show_key(k)));
+                }
+                if let Some(k) = after_keys.iter().find(|k| !before_keys.contains(*k) && !inserted_set.contains(*k)) {
+                    return Answer::fail(ans, "store-gained-unknown-node", format!("node {} appeared without insert_node", show_key(k)));
+                }
                 for k in stale_nodes {
                     self.dead.push((k, new_version));
                 }
@@ -440,6 +456,10 @@ impl Run {
                     Ok(x) => x,
                     Err(e) => return Answer::fail(ans, "reachable-node-missing", e),
                 };
+                if let Some(k) = reach.iter().find(|k| !(inserted_set.contains(*k) || (self.prev_reach.contains(*k) && !stale_set.contains(*k)))) {
+                    return Answer::fail(ans, "reach-not-mono", format!("node {} reachable from root {} is neither newly inserted nor a surviving node of the previous tree", show_key(k), new_version));
+                }
+                self.prev_reach = reach.clone();
                 for (k, since) in &self.dead {
                     if reach.contains(k) {
                         let key = if *since == new_version { "stale-node-reachable-now" } else { "stale-node-reachable-later" };
